@@ -238,6 +238,13 @@ def hedger_price_section(ctx, torch, nn):
                     if payoff_bad is None and not torch.equal(deriv.payoff(), z):
                         payoff_bad = {"payoff()": deriv.payoff().tolist(), "payoff_fn() through the clauses in force": z.tolist()}
         generic_ok = True
+        if st_p == "ok" and st_l == "ok" and c["which"] == "erm" and not abs(float(price) - float(loss)) <= 1e-9 * max(1.0, abs(float(price))):
+            # price and loss were asked for with the SAME hedge argument under the same seed
+            ctx.fail("for the entropic risk measure Hedger.price differs from Hedger.compute_loss on the same simulated paths with the same hedging "
+                     "instruments", small, key="price:erm:scenario:loss", detail={"price": float(price), "loss": float(loss)})
+        if (st_p == "ok") != (st_l == "ok"):
+            ctx.fail("Hedger.price and Hedger.compute_loss, asked with the same hedging instruments under the same seed, do not both succeed / both fail",
+                     small, key=f"price:{c['which']}:scenario:loss-error", detail={"price": str(price)[:200], "loss": str(loss)[:200]})
         if st_p == "ok" and len(by_hand_lib) == nt:
             exp = sum(by_hand_lib) / nt
             if not abs(float(price) - exp) <= 1e-9 * max(1.0, abs(exp)):
